@@ -287,4 +287,24 @@ def ftreeAgrees (T : Tables) : Bool :=
     | some a, some b => a.name == b.name && a.ty == b.ty && a.width == b.width && a.res == b.res
     | none, none => true
     | _, _ => false)
+/-! ### a definition as a flat sequence of tokens (for comparison with the pinned standard definitions) -/
+
+/-- `str(i)` for a Python int (only non-negative values occur in the tables) -/
+def strInt (i : Int) : Label := if i < 0 then 45 :: strNat i.natAbs else strNat i.toNat
+
+mutual
+/-- field name | `[`counter … `]` | `{`field`=`value … `}`; group names are not part of it -/
+def itemTokens (T : Tables) : Item → List Label
+  | .field fid => [T.fieldName fid]
+  | .group (.fixed n) body => (91 :: strNat n) :: (itemsTokens T body ++ [[93]])
+  | .group (.attr fid nest) body =>
+      (91 :: (T.fieldName fid ++ 43 :: strNat nest)) :: (itemsTokens T body ++ [[93]])
+  | .opt fid v body => (123 :: (T.fieldName fid ++ 61 :: strInt v)) :: (itemsTokens T body ++ [[125]])
+  | .malformed _ => [[63]]
+def itemsTokens (T : Tables) : List Item → List Label
+  | [] => []
+  | it :: rest => itemTokens T it ++ itemsTokens T rest
+end
+
+
 end Rtcm
